@@ -43,6 +43,8 @@ func checkC11(p *Program, r *Report) {
 	}
 	r.Explain("R11 in the address-of handler the addressability test and Addr() are applied to the value the operand's evaluation left, not to a value derived from it.")
 	c11AddrOfSlot(p, r, m)
+	r.Explain("R12 a value stored in a map comes back as it is: the map read helper returns the shared nil value only for a missing key, never for an entry that was found (a typed nil keeps its type).")
+	c10FoundEntryReturned(p, r, m, "C11.R12")
 	c11Args(p, r, m, sums, va)
 	c11Results(p, r, m)
 	c11Env(p, r)
